@@ -3,4 +3,4 @@
 # usage: tools/run_seeded.sh [parallelism=5]
 cd "$(dirname "$0")/.."
 J=${1:-5}
-ls -d seeded/C??_? | xargs -P $J -I{} bash -c 'n=$(basename {}); p=${n%_*}; if grep -q '"obsolete"' seeded/$n/meta.json; then echo "$n obsolete"; exit 0; fi; out=$(OMP_NUM_THREADS=2 VERIF_NCPU=3 tools/try_mutant.sh $p /verif/seeded/$n/patch.diff 2>&1); if echo "$out" | grep -q "VIOLATION property=$p"; then echo "$n caught"; else echo "$n MISSED: $(echo "$out" | tail -1)"; fi' | sort
+ls -d seeded/C??_* | xargs -P $J -I{} bash -c 'n=$(basename {}); p=${n%_*}; if grep -q '"obsolete"' seeded/$n/meta.json; then echo "$n obsolete"; exit 0; fi; out=$(OMP_NUM_THREADS=2 VERIF_NCPU=3 tools/try_mutant.sh $p /verif/seeded/$n/patch.diff 2>&1); if echo "$out" | grep -q "VIOLATION property=$p"; then echo "$n caught"; else echo "$n MISSED: $(echo "$out" | tail -1)"; fi' | sort
